@@ -48,15 +48,25 @@ func (e *c16Env) clientFieldOf(f *flow.Func, x ast.Expr) (*types.Var, types.Obje
 	if !ok || !v.IsField() {
 		return nil, nil
 	}
-	tv, ok := f.Info.Types[sel.X]
-	if !ok || tv.Type == nil {
-		return nil, nil
+	// the field may sit in a sub-struct of Client (`c.life.superseded`): some prefix of the selector
+	// chain must be the connection
+	isClient := func(t types.Type) bool {
+		if c16PtrTo(t, "Client") {
+			return true
+		}
+		n, ok := t.(*types.Named)
+		return ok && n.Obj().Name() == "Client" && n.Obj().Pkg() != nil && n.Obj().Pkg().Path() == Mod+mq
 	}
-	t := tv.Type
-	if !c16PtrTo(t, "Client") {
-		if n, ok := t.(*types.Named); !ok || n.Obj().Name() != "Client" || n.Obj().Pkg() == nil || n.Obj().Pkg().Path() != Mod+mq {
+	for cur := ast.Unparen(sel.X); ; {
+		tv, ok := f.Info.Types[cur]
+		if ok && tv.Type != nil && isClient(tv.Type) {
+			break
+		}
+		inner, ok := cur.(*ast.SelectorExpr)
+		if !ok {
 			return nil, nil
 		}
+		cur = ast.Unparen(inner.X)
 	}
 	return v, c16Obj(f, c16Root(sel.X))
 }
